@@ -166,6 +166,9 @@ func (s *signAttachedStream) signBlock(isFinal bool) error {
 	// NOTE: chunk is a slice into s.buffer's buffer, so make sure
 	// not to stash it anywhere.
 	chunk := s.buffer.Next(signatureBlockSize)
+	if chunk == nil {
+		chunk = []byte{}
+	}
 	checkSignBlockRead(s.version, isFinal, signatureBlockSize, len(chunk), s.buffer.Len())
 
 	sig, err := s.computeSig(chunk, s.seqno, isFinal)
